@@ -6,5 +6,6 @@ let () =
   | "cli" -> D_cli.run ()
   | "escape" -> D_escape.run ()
   | "run" -> D_run.run ()
+  | "expect" -> D_expect.run ()
   | "validate" -> D_exec.run_validate ()
   | x -> prerr_endline ("unknown " ^ x); exit 2
